@@ -43,6 +43,9 @@ type Case struct {
 	Shape Shape  `json:"shape"`
 	Mask  uint64 `json:"mask"`           // bit i set = universe file i present in the initial cache
 	Torn  int    `json:"torn,omitempty"` // 0 none; 1+i: file i also present as a torn .tmp leftover (next to it if its bit is set, instead of it otherwise)
+	// environment deviation: the n-th object write of the request (tier1 and its segment jobs together) fails once
+	// after consuming its body; the writers retry
+	FailWrite int `json:"fail_write,omitempty"`
 	// informational, filled in artefacts
 	Present []string `json:"present,omitempty"`
 }
@@ -61,6 +64,7 @@ var programs = map[string]func() *progs.Prog{
 
 // universe of one shape: files of a complete run + the partial files of each store-stage job run alone
 type universe struct {
+	writes  int // object writes of the clean run
 	shape   Shape
 	prog    *progs.Prog
 	names   []string          // sorted relative paths
@@ -178,6 +182,7 @@ func buildUniverse(s Shape) *universe {
 		return u
 	}
 	u.stream = sysx.NonEmpty(r.Data)
+	u.writes = r.Writes
 	full := readAll(dir)
 	for name, b := range full {
 		if strings.Contains(name, "substreams.partial.spkg") {
@@ -334,10 +339,15 @@ func Eval(c Case) (*core.Fail, bool) {
 		if planted != "" {
 			t = " + torn leftover " + short(planted)
 		}
+		if c.FailWrite > 0 {
+			t += fmt.Sprintf(" + object write #%d fails once after its body was consumed", c.FailWrite)
+		}
 		return fmt.Sprintf("%+v initial cache %v%s", c.Shape, present, t)
 	}
 	atomic.AddInt64(&runs, 1)
-	r := sysrun.Run(cfgFor(c.Shape, u.prog, dir))
+	cfg := cfgFor(c.Shape, u.prog, dir)
+	cfg.FailWrite = c.FailWrite
+	r := sysrun.Run(cfg)
 	if r.Err != nil {
 		key := "request-failed"
 		if sysx.IsHang(r.Err) {
@@ -367,6 +377,9 @@ func Eval(c Case) (*core.Fail, bool) {
 		if got != want {
 			return core.Failf("file-content-differs-from-clean-run", "%s: %s is\n    %s\n  the clean run's is\n    %s", desc(), short(n), got, want), true
 		}
+	}
+	if c.FailWrite > 0 {
+		return nil, r.WriteFaultHit
 	}
 	full := uint64(1)<<uint(len(u.names)) - 1
 	return nil, c.Mask != 0 && c.Mask != full
@@ -458,6 +471,12 @@ func Run(ctx *core.Ctx) int {
 					return true
 				}
 				if !rec(0, 3, 0) {
+					return
+				}
+			}
+			// a failing object write: deviation <= 1 on the empty cache and on the caches holding one file class
+			for n := 1; n <= u.writes+2; n++ {
+				if !emit(Case{Shape: s, Mask: 0, FailWrite: n}) {
 					return
 				}
 			}
